@@ -87,10 +87,20 @@ def r2(ctx, r):
         for name in CLOSE_FNS:
             f = engine_fn(fb, cls, name)
             invs = cb_invocations(f, "onClose")
+            # two kinds of site: notifications for a Session object (first argument reads Session::id) and, in shutdownDrain,
+            # notifications for connect commands that never got a Session (first argument comes from the command) — the
+            # latter are decided by R3c below
+            def about_session(e, SESS=SESS, f=f):
+                return _reads_session_id(f, _first_cb_arg(e), SESS)
+            cmd_sites = [e for e in invs if not about_session(e)]
+            invs = [e for e in invs if about_session(e)]
             r.instance()
             if len(invs) != 1:
-                r.fail(f, None, "%s: close notification sites" % name, "%s::%s has %d close-notification sites, expected exactly one" % (last(cls), name, len(invs)))
+                r.fail(f, None, "%s: close notification sites" % name, "%s::%s has %d close-notification sites for a Session object, expected exactly one" % (last(cls), name, len(invs)))
                 continue
+            if cmd_sites and name != "shutdownDrain":
+                r.instance()
+                r.fail(f, cmd_sites[0], "%s: close notification for a bare id" % name, "%s::%s fires a close notification whose id is not taken from the Session being closed" % (last(cls), name))
             inv = invs[0]
             vocab = Vocab(["closed"])
 
@@ -184,6 +194,77 @@ def r3b(ctx, r):
                      "%s::process can finish a %s command without calling %s: the session id already returned to the caller then never gets a connect or close event" % (
                          last(cls), last(en), last(h)), witness=witness_str(pr, w), okdesc="%s::process: case %s always reaches %s" % (last(cls), last(en), last(h)))
     r.floor(3, "id-bearing command kinds")
+
+
+def _first_cb_arg(e):
+    a = (e.node.get("args") or [None, None])
+    return a[1] if e.node.get("k") == "opcall" and len(a) > 1 else a[0]
+
+
+def _reads_session_id(f, a, SESS, depth=0):
+    """the expression reads Session::id, directly or through a local initialised from it (`SessionId sid = s->id`)"""
+    if a is None:
+        return False
+    for x in walk(a):
+        if x.get("k") == "member" and x["n"] == SESS + "::id":
+            return True
+        if x.get("k") == "var" and depth < 3:
+            for e in f.stmts():
+                if e.node.get("k") == "decl":
+                    for dv in e.node["vars"]:
+                        if dv["d"] == x.get("d") and dv.get("init") is not None and _reads_session_id(f, dv["init"], SESS, depth + 1):
+                            return True
+    return False
+
+
+def r3c(ctx, r):
+    """connect() hands out the session id when the command is queued.  Commands still queued when the engine closes its queue
+    are swapped into a local ('residual') and never dispatched: every connect-type command among them must get its close
+    notification there, exactly once, with the id of that command — or the id the application holds never terminates."""
+    from ..finite import dominating_facts
+    fb = ctx.fb()
+    KINDS = {TCP: {"Connect": "c"}, UDP: {"Connect": "c", "Via": "v"}}
+    for cls in (TCP, UDP):
+        f = engine_fn(fb, cls, "shutdownDrain")
+        SESS = cls + "::Session"
+        sites = [(e, _first_cb_arg(e)) for e in cb_invocations(f, "onClose") if not _reads_session_id(f, _first_cb_arg(e), SESS)]
+        # kind tests `c.t == Kind` (each leaf of a disjunction has its own block); a site is guarded by them if it cannot be reached
+        # with all their true edges cut, and it covers the kinds from whose true edge it can be reached
+        tests = []
+        for bb in f.blocks.values():
+            c = strip_casts(bb.cond) if bb.cond is not None else None
+            if c is not None and c.get("k") in ("bin", "opcall") and c.get("op") == "==":
+                ks = [last(x["n"]) for x in walk(c) if x.get("k") == "enum" and last(x["n"]) in KINDS[cls]]
+                if len(ks) == 1 and bb.succs[0] is not None:
+                    tests.append((bb, ks[0]))
+        covered = {}
+        for (e, a) in sites:
+            cut = {bb.id for (bb, k) in tests}
+            unguarded = search(f, ("entry",), lambda x, e=e: x is e, eh=False, edge_ok=lambda b_, si: not (b_.id in cut and si == 0))
+            if unguarded is not None:
+                r.instance()
+                r.fail(f, e, "residual close not tied to a command kind", "a close notification for a bare command id in shutdownDrain is reachable without a test of the command's kind")
+                continue
+            for (bb, k) in tests:
+                if search(f, ("block", bb.succs[0]), lambda x, e=e: x is e, eh=False, edge_ok=lambda b_, si: not (b_.id in cut and si == 0), include_start=True) is not None \
+                        or any(x is e for x in f.blocks[bb.succs[0]].elems):
+                    # the id must be the one stored in that kind's payload
+                    covered.setdefault(k, []).append((e, a))
+        for kind, member in KINDS[cls].items():
+            r.instance()
+            got = covered.get(kind, [])
+            r.expect(len(got) >= 1, f, None, "residual %s command not closed" % kind,
+                     "%s::shutdownDrain drops a %s command left in the queue when it closes without a close notification for its session id: connect() had already returned ok(sid) for it (typically a reconnect "
+                     "issued from an onClose callback fired by the drain itself), so that id never gets onConnect nor onClose" % (last(cls), kind),
+                     okdesc="%s: residual %s commands get onClose(sid)" % (last(cls), kind))
+        # exactly once: no path from one command-site to another command-site within the same iteration, and none of them reachable twice
+        for (e, a) in sites:
+            r.instance()
+            w = None
+            for (e2, a2) in sites:
+                if e2 is not e:
+                    w = w or search(f, e, lambda x, e2=e2: x is e2, stop=lambda x: x.kind == "stmt" and x.node.get("k") == "un" and x.node.get("op") in ("++", "pre++") or (x.kind == "stmt" and x.node.get("k") == "opcall" and x.node.get("op") == "++"), eh=False)
+            r.expect(w is None, f, e, "residual command closed twice", "a residual command can be notified by two sites in one iteration", okdesc="residual command notified once")
 
 
 def r4(ctx, r):
@@ -468,6 +549,7 @@ def run(ctx, ck):
     ck.run_rule("C02-R2", "close is idempotent: !closed → closed=true → erase → notify", "A5 + A2", lambda r: r2(ctx, r))
     ck.run_rule("C02-R3", "every connect outcome is terminal exactly once", "A5 ghost counting", lambda r: r3(ctx, r))
     ck.run_rule("C02-R3b", "a dequeued connect command always reaches its handler", "A2 must-pass", lambda r: r3b(ctx, r))
+    ck.run_rule("C02-R3c", "connect commands dropped at queue close still get their close notification", "A2 closed set of command kinds vs. notification sites", lambda r: r3c(ctx, r))
     ck.run_rule("C02-R4", "timer-originated closes are re-validated; timer handlers only enqueue", "A5 + A3", lambda r: r4(ctx, r))
     ck.run_rule("C02-R5", "announce after insertion and before data", "A2", lambda r: r5(ctx, r))
     ck.run_rule("C02-R6", "session ids are only ever incremented", "A10", lambda r: r6(ctx, r))
